@@ -44,9 +44,42 @@ From WV Require Gen.ParseSkeleton Proofs.ParsePinned.
 Theorem c12_parse_source_skeleton : WV.Gen.ParseSkeleton.parse_skeleton = WV.Proofs.ParsePinned.expected_parse_skeleton.
 Proof. exact WV.Proofs.ParsePinned.parse_skeleton_pinned. Qed.
 
+(* ---- below the section stream (Model/Frame.v, proofs in Proofs/Frame.v): the framing of a module and the layout of a custom section.
+   Reading back what was framed gives the section stream; equal bytes <-> equal section streams; the (name, data) of a custom section is
+   recovered from its payload for EVERY encoding of the name length (minimal or padded); taking `1 + |name|` bytes off the payload is right
+   only while the name is shorter than 128 bytes (witness).  Tied to wasmparser / wasm-encoder / what walrus stores by Run/FrameRun.v. *)
+From WV Require Import Model.Leb Model.Frame Proofs.Frame.
+Theorem c12_unframe_frame : forall secs, Forall small_sec secs -> unframe_module (frame_module secs) = Some secs.
+Proof. exact unframe_frame_module. Qed.
+
+Theorem c12_equal_bytes_iff_equal_sections : forall a b, Forall small_sec a -> Forall small_sec b ->
+  (frame_module a = frame_module b <-> a = b).
+Proof. exact frame_module_iff. Qed.
+
+Theorem c12_custom_name_and_data_recovered : forall name data, (lenN name < 2 ^ 126)%N ->
+  split_custom (custom_payload name data) = Some (name, data).
+Proof. exact split_custom_payload. Qed.
+
+Theorem c12_custom_name_and_data_recovered_any_length_encoding : forall lb name data,
+  dec_u (lb ++ name ++ data) = Some (lenN name, name ++ data) -> split_custom (lb ++ name ++ data) = Some (name, data).
+Proof. exact split_custom_any. Qed.
+
+Theorem c12_one_byte_offset_right_below_128 : forall name data, (lenN name < 128)%N ->
+  skipn (1 + length name) (custom_payload name data) = data.
+Proof. exact one_byte_len_ok. Qed.
+
+Theorem c12_one_byte_offset_refuted : exists name data, skipn (1 + length name) (custom_payload name data) <> data.
+Proof. exact naive_split_refuted. Qed.
+
 Print Assumptions c12_roundtrip.
 Print Assumptions c12_gc.
 Print Assumptions c12_emit_keeps_module.
 Print Assumptions c12_twice.
 Print Assumptions c12_emit_wasm_source_pinned.
 Print Assumptions c12_parse_source_skeleton.
+Print Assumptions c12_unframe_frame.
+Print Assumptions c12_equal_bytes_iff_equal_sections.
+Print Assumptions c12_custom_name_and_data_recovered.
+Print Assumptions c12_custom_name_and_data_recovered_any_length_encoding.
+Print Assumptions c12_one_byte_offset_right_below_128.
+Print Assumptions c12_one_byte_offset_refuted.
